@@ -25,7 +25,8 @@ def run(cx):
     for r, t in (("R07a", "order of supply is irrelevant: only sorted sequences feed the order"),
                  ("R07b", "components first: append guarded by 'all present sub-components done'; append and mark paired"),
                  ("R07c", "cycles raise ValueError"),
-                 ("R07d", "reports are assembled in dependency order from already built component graphs")):
+                 ("R07d", "reports are assembled in dependency order from already built component graphs"),
+                 ("R07e", "graph searches over builds / commits prune by membership only, never by ordering of allocation ids")):
         cx.rule(r, t)
     init = cx.func(REL, "ReposCollection.__init__", "R07a")
     mrd = cx.func(REL, "ReposCollection.make_reports_data", "R07d")
@@ -121,3 +122,42 @@ def run(cx):
         r = [v for _, v in assignments(mrd, "repo") if v is not None]
         ok = len(r) == 1 and norm(r[0]) == f"self.repos[{rid}]"
         cx.ob("R07d", l, ok, "each id is resolved to its own repository" if ok else "repository lookup altered", stmt="lookup")
+    # ------------------------------------------------------------------ R07e
+    _r07e(cx, repo)
+
+
+CONTROL = """
+def walk(self):
+    stack = [[self.to]]
+    latest = max(self.frm, default=-1)
+    while stack:
+        cur = stack[-1].pop()
+        if cur.iid <= latest:
+            continue
+        stack.append(list(cur.parents))
+"""
+
+
+def _id_order_prunes(tree):
+    """Ordering comparisons involving `.iid` inside a while-loop (graph search)."""
+    out = []
+    for w in [n for n in ast.walk(tree) if isinstance(n, ast.While)]:
+        for c in ast.walk(w):
+            if isinstance(c, ast.Compare) and any(isinstance(o, (ast.Lt, ast.LtE, ast.Gt, ast.GtE)) for o in c.ops):
+                sides = [c.left] + list(c.comparators)
+                if any(isinstance(x, ast.Attribute) and x.attr == "iid" for s_ in sides for x in ast.walk(s_)):
+                    out.append(c)
+    return out
+
+
+def _r07e(cx, repo):
+    ctl = ast.parse(CONTROL)
+    cx.need(len(_id_order_prunes(ctl)) == 1, "R07e", "positive-control", "the id-ordering matcher does not find the control instance")
+    m = repo.mod(REL, "R07e")
+    n_loops = sum(1 for n in ast.walk(m.tree) if isinstance(n, ast.While))
+    cx.at_least("R07e", "search loops in ghist", n_loops, 4)
+    hits = _id_order_prunes(m.tree)
+    for c in hits:
+        cx.ob("R07e", c, False, f"`{norm(c)}` orders builds / commits by their allocation id inside a graph search: ids grow with discovery order, not with ancestry, "
+              f"so on a merged history builds of a side line are pruned (a component build is then not recorded at the parent build that ships it)")
+    cx.ob("R07e", REL, True, f"{n_loops} search loops scanned, {len(hits)} ordering comparisons on ids", construct=f"{REL}::graph searches", stmt="scan")
